@@ -217,6 +217,29 @@ Section Lin.
     assert (p1 = p2) by (eapply Hu; eassumption). subst. rewrite E1 in E2. inversion E2. reflexivity.
   Qed.
 
+
+  (* what a writer remembers of its locked search is what readers see at the moment of its
+     linearization store: the old value it will report (update, delete) is the visible one, and an
+     insert happens only when the key is not visible *)
+  Theorem writer_sees_vis s t : XC s ->
+    match g_pc s t with
+    | PW_U1 cx tab _ old _ | PW_D1 cx tab _ old => vis (tab_at s tab) (cx_k cx) old
+    | PW_I1 cx tab _ _ | PW_I2 cx tab _ _ | PW_N1 cx tab _ | PW_Sum cx tab _ _ => forall v, ~ vis (tab_at s tab) (cx_k cx) v
+    | _ => True
+    end.
+  Proof.
+    intros HC. pose proof (xc_pc _ _ _ _ _ s HC t) as Hf.
+    destruct (g_pc s t); try exact I; cbn [X_c04.pcfact] in Hf; unfold vis;
+      change (home (tab_at s tab) (cx_k cx)) with (hkey s tab (cx_k cx));
+      change (chain_of (tab_at s tab) (hkey s tab (cx_k cx))) with (chain s tab (hkey s tab (cx_k cx))).
+    - (* D1 *) destruct Hf as [F1 [F2 F3]]. exists pos. auto.
+    - (* U1 *) destruct Hf as [F1 [F2 F3]]. exists pos. auto.
+    - (* I1 *) destruct Hf as [_ [_ [_ F4]]]. intros v [p [Hp [_ He]]]. apply F4. exists p, v. auto.
+    - (* I2 *) destruct Hf as [_ [_ [_ F4]]]. intros v [p [Hp [_ He]]]. apply F4. exists p, v. auto.
+    - (* Sum *) intros v [p0 [Hp [_ He]]]. apply Hf. exists p0, v. auto.
+    - (* N1 *) intros v [p [Hp [_ He]]]. apply Hf. exists p, v. auto.
+  Qed.
+
 End Lin.
 
 (* ---------------- the statements of props/C04.v ---------------- *)
@@ -264,6 +287,21 @@ Section Final.
     destruct (reachable_inv4 eqd hash idx tag nslots seeds grow_needed shrink_policy probe nstripes minlen grow_only H1 H2 H3 H4 H5 H6 len0 todo sched Hl)
       as [HI [_ [HT HC]]].
     eapply (vis_xstep eqd hash idx tag nslots seeds grow_needed shrink_policy probe nstripes minlen grow_only); eassumption.
+  Qed.
+
+  Lemma writer_sees_vis_proof :
+    xhyps4 idx nstripes minlen nslots probe -> forall len0 todo sched t, 0 < len0 ->
+    let s := fst (xrun (xinit nslots seeds nstripes len0 todo) sched) in
+    match g_pc s t with
+    | PW_U1 cx tab _ old _ | PW_D1 cx tab _ old => vis (tab_at s tab) (cx_k cx) old
+    | PW_I1 cx tab _ _ | PW_I2 cx tab _ _ | PW_N1 cx tab _ | PW_Sum cx tab _ _ => forall v, ~ vis (tab_at s tab) (cx_k cx) v
+    | _ => True
+    end.
+  Proof.
+    intros [[H1 [H2 H3]] [H4 [H5 H6]]] len0 todo sched t Hl s.
+    destruct (reachable_inv4 eqd hash idx tag nslots seeds grow_needed shrink_policy probe nstripes minlen grow_only H1 H2 H3 H4 H5 H6 len0 todo sched Hl)
+      as [HI [_ [HT HC]]].
+    apply (writer_sees_vis hash idx tag nslots nstripes s t HC).
   Qed.
 
   Lemma vis_functional_proof :
